@@ -16,6 +16,10 @@ TECHNIQUE = ("deterministic simulation of one established transit connection "
              "scheduler picks, with a framing-aware man-in-the-middle whose "
              "single-point manipulations are enumerated per record index; "
              "prefix/drop oracle on receive_record() and consumer output")
+RULE_EAGER = (" In a third of the seeded runs the sender passes its first 1..4 "
+              "records to send_record() in the turn in which its connect() "
+              "fires (they travel right behind 'go' and may share a read with "
+              "it); in half of those nothing else follows in that direction.")
 RULE = ("Enumerated part: for a fixed record list (sizes 0,1,16,4096,65536,"
         "70000,5) every record index x direction x operation in {flip a byte "
         "of the length prefix / nonce / ciphertext / tag, delete, duplicate, "
@@ -32,6 +36,7 @@ RULE += (' Transport variants: plain TCP, and one that keeps delivering in-fligh
 RULE += (' In a third of the sampled runs 61..600 simulated seconds pass on the established connection (an application that keeps the pipe open).')
 RULE += (' Half of the sampled runs use slow consumers which pause their producer from inside write() and resume when the scheduler says so.')
 RULE += (' 1/24 of the sampled runs send 1000..2500 tiny records to a receiver that is busy meanwhile (reads are at most 64 KiB).')
+RULE += RULE_EAGER
 LEVEL_TEXT = ("Fault enumeration over manipulation points of a fixed stream "
               "plus seeded exploration of streams/chunkings/reader modes. "
               "Oracle: what the reader obtains is always a prefix of the "
@@ -100,13 +105,14 @@ class Collector:
 class Mitm:
     """Framing-aware man in the middle for one direction."""
 
-    def __init__(self, world, k, op, tape):
+    def __init__(self, world, k, op, tape, base=0):
         self.w = world
         self.k = k
         self.op = op
         self.tape = tape
         self.buf = bytearray()
-        self.n = 0
+        self.base = base        # records that passed before it stepped in
+        self.n = base
         self.held = None
         self.seen = []
         self.fired = False
@@ -178,13 +184,13 @@ class Mitm:
             self.held = frame
             return b""
         if op == "replay":
-            if i == 0:
+            if i == self.base:
                 self.fired = False
                 self.op = "dup"
                 self.n -= 1
                 self.seen.pop()
                 return self.on_frame(frame)
-            old = self.seen[t.choose(i, "rpi")]
+            old = self.seen[t.choose(i - self.base, "rpi")]
             self.mark(len(old))
             return old + frame
         if op == "truncate":
@@ -204,11 +210,12 @@ class Mitm:
             # a frame of the opposite direction with the same index (same
             # nonce counter) put in place of this one
             other = self.opposite.seen_all
-            if len(other) <= i:
+            oi = i - self.opposite.base
+            if oi < 0 or len(other) <= oi:
                 self.fired = False
                 return frame
-            self.mark(len(other[i]))
-            return other[i]
+            self.mark(len(other[oi]))
+            return other[oi]
         raise HarnessError(op)
 
     def mark(self, nbytes):
@@ -228,8 +235,23 @@ def run_one(seed, tape, opts):
     hs, hr = w.hints_of(S), w.hints_of(R)
     R.t.add_connection_hints(hs)
     S.t.add_connection_hints(hr)
+    # an eager sender passes its first records to send_record() in the very
+    # turn in which connect() fires: they travel right behind "go" and may
+    # reach the receiver in the same read (the handshake/record boundary)
+    eager = []
+    if not opts.get("fixed") and tape.choose(3, "eager") == 0:
+        eager = [tape.blob(tape.pick((0, 1, 5, 300, 16384, 70000), "esz"),
+                           900 + i)
+                 for i in range(1 + tape.choose(4, "eager_n"))]
     S.connect()
     R.connect()
+    if eager:
+        def send_eager(_):
+            if S.result and S.result[0] == "ok":
+                for b in eager:
+                    S.result[1].send_record(b)
+                sim.note("probe.records_sent_in_the_turn_of_go")
+        S.connect_d.addCallback(send_eager)
     r = sim.run(3000, until=lambda: S.result and R.result, max_time=200)
     if r != "until" or S.result[0] != "ok" or R.result[0] != "ok":
         raise HarnessError("setup: transit connection not established: %r %r"
@@ -239,6 +261,13 @@ def run_one(seed, tape, opts):
     if es is None or er is None or es.link is not er.link:
         raise HarnessError("setup: results are not two ends of one link")
     link = es.link
+    if eager:
+        # let the eager records arrive before the man in the middle steps in
+        # (its byte accounting starts at a frame boundary)
+        r = sim.run(3000, until=lambda: not es.sendbuf and not er.inflight,
+                    max_time=200)
+        if r != "until":
+            raise HarnessError("setup: eager records still in flight")
     # transport variant: does the transport go on delivering what is already
     # in flight after loseConnection() (legal for an ITransport, e.g. TLS or a
     # wrapping protocol; plain TCP stops reading)? transit.Connection has its
@@ -286,11 +315,22 @@ def run_one(seed, tape, opts):
                                     "rd1"),
                    "r2s": tape.pick(("read", "consumer", "consumer_exp"),
                                     "rd2")}
+    if eager:
+        if tape.choose(2, "eager_only") == 0 and "s2r" not in burst_dir:
+            # nothing follows: what is stranded behind "go" stays stranded
+            recs["s2r"] = []
+            if tamper and tamper[0] == "s2r":
+                tamper = None
+        recs["s2r"] = eager + recs["s2r"]
+        if tamper and tamper[0] == "s2r":
+            tamper[1] += len(eager)
     conns = {"s2r": (cs, cr, er), "r2s": (cr, cs, es)}
     rx_end = {"s2r": er, "r2s": es}
-    mitm = {"s2r": Mitm(w, -1, None, tape), "r2s": Mitm(w, -1, None, tape)}
+    mitm = {"s2r": Mitm(w, -1, None, tape, len(eager)),
+            "r2s": Mitm(w, -1, None, tape)}
     if tamper:
-        mitm[tamper[0]] = Mitm(w, tamper[1], tamper[2], tape)
+        mitm[tamper[0]] = Mitm(w, tamper[1], tamper[2], tape,
+                               len(eager) if tamper[0] == "s2r" else 0)
     mitm["s2r"].opposite, mitm["r2s"].opposite = mitm["r2s"], mitm["s2r"]
     def link_tamper(end_to, data):
         d = "s2r" if end_to is er else "r2s"
@@ -312,7 +352,7 @@ def run_one(seed, tape, opts):
     st = {}
     for d in ("s2r", "r2s"):
         tx, rx, rend = conns[d]
-        st[d] = {"sent": 0, "got": [], "reads": [], "read_fail": 0,
+        st[d] = {"sent": len(eager) if d == "s2r" else 0, "got": [], "reads": [], "read_fail": 0,
                  "consumer": None, "cdef": None, "cdef_state": None,
                  "mode": readers[d], "attached": False, "multi_chunk": False,
                  "expected_n": None, "rx_base": rx_end[d].rx_count}
